@@ -2,9 +2,9 @@
 from props import _worldcheck as W
 
 ID = "C15"
-SECTIONS = ["ops"]
+SECTIONS = ["ops", "session"]
 LEAN_MODULES = ["QExPy.Props.C15"]
-THEOREMS = ["QExPy.World.C15_set_method", "QExPy.World.C15_reset_method",
+THEOREMS = ["QExPy.World.C15_effMethod_tie", "QExPy.World.C15_set_method", "QExPy.World.C15_reset_method",
             "QExPy.World.C15_set_global", "QExPy.World.C15_set_method_other",
             "QExPy.World.C15_dispatch", "QExPy.World.C15_core_unchanged",
             "QExPy.World.C15_noninterference", "QExPy.World.C15_history_independent"]
